@@ -546,7 +546,7 @@ def discharge(obls, timeout_s=20, jobs=16, all_backends=False, keep_dir=None, re
                 for i in range(n):
                     if verdicts[i] is None and obls[i].fn not in ("lemma", "struct") and give_up(obls[i].fn):
                         verdicts[i] = Verdict(obls[i].name, obls[i].kind, "unknown", "-", t_used[i],
-                                              detail="not pursued further: the native evaluation of this function's contract already fails")
+                                              detail="not pursued further: the native evaluation of the property's contracts already holds a failing input")
             for i in range(n):
                 if verdicts[i] is None and obls[i].fn in bad and obls[i].fn not in ("lemma", "struct"):
                     verdicts[i] = Verdict(obls[i].name, obls[i].kind, "skipped", "-", t_used[i],
